@@ -193,7 +193,11 @@ func (c *Context) ActorOf(actor vivid.Actor, options ...vivid.ActorOption) (vivi
 		Type:     reflect.TypeOf(actor),
 	})
 
-	if status == killing {
+	// 父级状态须在子级登记之后重新读取：System.ActorOf 可由任意协程调用，根 Actor 可能在入口处的读取之后、
+	// 子级登记之前开始停止（此时它收集到的子级集合不包含该子级），沿用入口处的旧值会使该子级永远不会被终止
+	// （根 Actor 永久等待，或系统停止后该 Actor 仍然存活）。
+	// the parent's state must be re-read after the child has been registered (see above)
+	if atomic.LoadInt32(&c.state) != running {
 		c.Kill(childCtx.ref, false, "parent killed")
 	}
 	return childCtx.Ref(), nil
